@@ -8,11 +8,11 @@ from sqlparse.exceptions import SQLParseError
 
 RULE = ('(a) option dictionaries drawn from a pool of Python values per documented option (valid and invalid; singles exhaustively, random subsets) on a fixed probe and on random texts: format() returns or raises SQLParseError; '
         '(b) parse/split/format with random VALID option sets on junk (g2/g3), nearly valid and grammar inputs; (c) every read-only accessor on every node of every resulting tree; '
-        '(d) sweeps: degenerate inputs x every single valid option value (+ split(strip_semicolon), + encoding keyword), every token-prefix/suffix and single-token deletion of grammar statements, '
+        '(d) sweeps: every sequence (<= 3, sampled 4) over 35 junk tokens around the joining markers (::, AS, ., [, :=, operators, OVER, …) with every accessor on every group; degenerate inputs x every single valid option value (+ split(strip_semicolon), + encoding keyword), every token-prefix/suffix and single-token deletion of grammar statements, '
         'every dictionary word in dangling positions (incl. after WITH), option values in every spelling/type x a reference of the documented domain (an invalid value must raise SQLParseError); '
         'non-trivial = distinct (text, options) or (text, node, accessor) evaluated')
 ASSUMPTIONS = ['right_margin is undocumented (raises NotImplementedError by design) and is outside the option domain', 'MemoryError etc. from CPython internals are out of scope']
-PARTIAL = ['lexer+splitter total, grouping total (only RecursionError), option validation total, accessor totality, every statement filter total on its decidable domain FilterSafe.* (strip_comments and use_space_around_operators on every tree) are theorems; that grouped trees of arbitrary junk lie inside FilterSafe.reindent/aligned/stripws is explored (DOMAIN(filtersafe), escaping exceptions classified by the Lean predicate); two former findings were repaired (KF-C07-F4/F5)']
+PARTIAL = ['lexer+splitter total, grouping total (only RecursionError), option validation total, accessor totality, every statement filter total on its decidable domain FilterSafe.* (strip_comments and use_space_around_operators on every tree) are theorems; that grouped trees lie inside FilterSafe.stripws/aligned is a theorem under the decidable token-level hypothesis DelimSafe (SqlProofs/DelimChild); for FilterSafe.reindent and for statements outside DelimSafe it is explored (DOMAIN(filtersafe), escaping exceptions classified by the Lean predicate); two former findings were repaired (KF-C07-F4/F5)']
 
 POOL = [None, True, False, 0, 1, 2, -1, 3, 10, 1.0, 0.0, 2.5, float('inf'), float('-inf'), float('nan'), '', 'upper', 'lower', 'capitalize', 'sql', 'python', 'php',
         '3', 'x', ' 4 ', [], 10 ** 30, '1_0', b'2']
@@ -394,8 +394,53 @@ def dangling_words(ctx):
                 accessors(ctx, t, stmts)
 
 
+# --- round-4 hardening: token-level junk, bounded-exhaustive ------------------------------------------------------------------------------------
+# the tokens that grouping passes join with a neighbour (`::`, AS, `.`, `[`, `:=`, comparison / arithmetic operators, `,`, ordering words, OVER, typed-literal heads,
+# block keywords) and the operands they join; every sequence up to length 3 (and a sample of length 4) puts each of them first, last and next to each other inside a
+# group — shapes like `x as ::` (an Identifier whose LAST child is the marker) that no grammar-derived input has.  Every accessor is called on every group of every tree.
+JUNK = ['x', '1', "'s'", '"q"', '*', '?', 'as', '::', '.', '[', ']', '(', ')', ',', ':=', '=', '+', 'desc', 'over', 'date', 'case', 'when', 'end', 'null', 'in', 'where', 'f(', 'int', ';',
+        "at time zone 'u'", 'between', 'and', 'like', '-- c\n', '/* c */']
+
+
+def junk_texts(ctx):
+    import itertools
+    rng = ctx.rng
+    for n in (1, 2, 3):
+        for seq in itertools.product(JUNK if n < 3 or not ctx.quick() else JUNK[:25], repeat=n):      # quick tier: triples over the first 25 tokens (15 625)
+            yield ' '.join(seq)
+    # the same markers glued to their neighbours and inside an enclosing statement / parenthesis
+    core = ['x', '1', 'as', '::', '.', '[', ']', '(', ')', ',', ':=', 'desc', 'over', 'f(', "'s'"]
+    for seq in itertools.product(core, repeat=3):
+        t = ''.join(seq)
+        yield t
+        yield 'select ' + ' '.join(seq) + ' from t'
+        yield '(' + ' '.join(seq) + ')'
+    four = list(itertools.product(core, repeat=4))
+    for seq in rng.sample(four, ctx.n(3000, len(four))):
+        yield ' '.join(seq)
+
+
+def junk_sweep(ctx):
+    n = 0
+    for t in junk_texts(ctx):
+        n += 1
+        try:
+            stmts = sqlparse.parse(t)
+            ctx.evaluations += 1
+        except SQLParseError:
+            continue
+        except Exception as e:
+            ctx.fail('%s escaped from parse()' % type(e).__name__, t, observed=repr(e)[:160], required='result or SQLParseError')
+            continue
+        accessors(ctx, t, stmts)
+        if n % 7 == 0:
+            try_format(ctx, t, random_valid_opts(ctx.rng), 'valid options')
+    ctx.count('junk_sweep', n)
+
+
 def run(ctx):
     rng = ctx.rng
+    junk_sweep(ctx)
     # (a) option values
     for k in OPTS:
         for v in POOL:
